@@ -5,16 +5,21 @@ package c03
 
 import (
 	"bytes"
+	"os"
 
 	"github.com/goatcms/goatcore/filesystem"
+	"github.com/goatcms/goatcore/filesystem/filespace/diskfs"
 	"github.com/goatcms/goatcore/filesystem/filespace/memfs"
 	"github.com/goatcms/goatcore/filesystem/fscache"
 	"github.com/goatcms/goatcore/filesystem/fshelper"
+	_ "github.com/goatcms/goatcore/zzverif/hostfs" // host model behind the disk kind (initialised with this package)
 	"github.com/goatcms/goatcore/zzverif/nd"
 	"github.com/goatcms/goatcore/zzverif/reftree"
 )
 
 var zzMarker = []byte("M")
+
+var zzCleanup = func() {}
 
 const (
 	kWrapper = iota
@@ -23,10 +28,11 @@ const (
 	kCacheChild
 	kWrapperOfWrapper
 	kSubOfWrapper
+	kDiskChild
 	kNKinds
 )
 
-var zzKindName = []string{"wrapper", "subfs", "rochild", "cachechild", "wrapwrap", "subwrap"}
+var zzKindName = []string{"wrapper", "subfs", "rochild", "cachechild", "wrapwrap", "subwrap", "diskchild"}
 
 // zzBuild creates the parent tree
 //
@@ -37,6 +43,20 @@ var zzKindName = []string{"wrapper", "subfs", "rochild", "cachechild", "wrapwrap
 // under test.
 func zzBuild(kind int) (parent filesystem.Filespace, view filesystem.Filespace) {
 	root, _ := memfs.NewFilespace()
+	if kind == kDiskChild {
+		// a disk filespace over the host model (natively: a scratch directory)
+		base := "/r"
+		if nd.Concrete() {
+			d, err := os.MkdirTemp("", "zzc03")
+			nd.Assume(err == nil)
+			base = d
+			zzCleanup = func() { os.RemoveAll(d) }
+		}
+		nd.Assume(os.MkdirAll(base, 0755) == nil)
+		dr, err := diskfs.NewFilespace(base)
+		nd.Assume(err == nil)
+		root = dr
+	}
 	w := func(p string, d string) {
 		nd.Assume(root.WriteFile(p, []byte(d), filesystem.DefaultUnixFileMode) == nil)
 	}
@@ -63,7 +83,7 @@ func zzBuild(kind int) (parent filesystem.Filespace, view filesystem.Filespace) 
 	w("o/y", "M")
 	var err error
 	switch kind {
-	case kWrapper:
+	case kWrapper, kDiskChild:
 		view, err = root.Filespace("in")
 		nd.Assume(err == nil)
 		return root, view
@@ -155,6 +175,7 @@ func zzOutsideName(n string) bool {
 // created, changed or deleted.
 func zzConfine(kind int) {
 	parent, view := zzBuild(kind)
+	defer func() { zzCleanup() }()
 	name := zzKindName[kind]
 	inside := zzInsideRef()
 	L := nd.Param("L", 4)
@@ -243,6 +264,14 @@ func zzConfine(kind int) {
 		if escSrc {
 			src, dst = p, "c"
 		}
+		if op == 11 && !escSrc {
+			src = "d"
+		}
+		// a destination inside the source is outside the claim (on disk the
+		// walk chases its own output)
+		ss, _ := reftree.Norm(src)
+		ds, _ := reftree.Norm(dst)
+		nd.Assume(!reftree.IsPrefix(ss, ds))
 		switch op {
 		case 10:
 			view.CopyFile(src, dst)
@@ -268,3 +297,4 @@ func ZZVerifC03ROChild()    { zzConfine(kROChild) }
 func ZZVerifC03CacheChild() { zzConfine(kCacheChild) }
 func ZZVerifC03WrapWrap()   { zzConfine(kWrapperOfWrapper) }
 func ZZVerifC03SubWrap()    { zzConfine(kSubOfWrapper) }
+func ZZVerifC03DiskChild()  { zzConfine(kDiskChild) }
